@@ -381,6 +381,350 @@ static void packet_mutations(const std::string &seed, const std::function<void(c
 	}
 }
 
+// ------------------------------------------------------------------------------------------------ length-field catalogue
+// Every length field of an artefact is located by a small structural scan (packet lengths in new / old / partial form, hashed and
+// unhashed area scalars, signature and user-attribute SUBPACKET lengths, notation name / value lengths, embedded signatures
+// (recursively), MPI bit counts, v5 key material counts, OID / KDF / file name length octets) together with the chain of enclosing
+// length fields.  Each field is then rewritten to each value of a boundary set in every form that can encode it, with and without
+// fixing up the enclosing lengths for the changed width of the encoding.
+enum { E_NEW, E_OLD, E_SUB, E_U8, E_U16, E_U32, E_MPI };
+struct LF {
+	std::string name;
+	size_t pos, width;          // E_OLD: pos is the tag octet (the length type lives there); all others: the length octets only
+	int enc;
+	uint64_t actual, remaining; // remaining: octets that follow the field inside its container
+	std::vector<int> parents;   // enclosing length fields, innermost first
+	unsigned char tagoctet;     // E_OLD
+	bool partial;               // E_NEW: the seed uses a partial length octet here
+};
+
+static uint64_t rd(const std::string &b, size_t p, int n) { uint64_t v = 0; for (int i = 0; i < n; i++) v = (v << 8) | (unsigned char)b[p + i]; return v; }
+
+static std::string enc_len(int enc, const std::string &form, uint64_t v, unsigned char tagoctet)
+{
+	if (form == "n1" || form == "s1") return v < 192 ? be(v, 1) : "";
+	if (form == "n2") return (v >= 192 && v <= 8383) ? std::string(1, (char)(((v - 192) >> 8) + 192)) + std::string(1, (char)((v - 192) & 0xff)) : "";
+	if (form == "s2") return (v >= 192 && v <= 16319) ? std::string(1, (char)(((v - 192) >> 8) + 192)) + std::string(1, (char)((v - 192) & 0xff)) : "";
+	if (form == "n5" || form == "s5") return v <= 0xffffffffULL ? "\xff" + be(v, 4) : "";
+	if (form == "p") { for (int k = 0; k < 31; k++) if (v == ((uint64_t)1 << k)) return std::string(1, (char)(224 + k)); return ""; }
+	if (form == "o1") return v < 256 ? std::string(1, (char)((tagoctet & 0xfc) | 0)) + be(v, 1) : "";
+	if (form == "o2") return v < 65536 ? std::string(1, (char)((tagoctet & 0xfc) | 1)) + be(v, 2) : "";
+	if (form == "o4") return v <= 0xffffffffULL ? std::string(1, (char)((tagoctet & 0xfc) | 2)) + be(v, 4) : "";
+	if (form == "u8") return v < 256 ? be(v, 1) : "";
+	if (form == "u16") return v < 65536 ? be(v, 2) : "";
+	if (form == "u32") return v <= 0xffffffffULL ? be(v, 4) : "";
+	if (form == "bits") return v < 65536 ? be(v, 2) : "";
+	if (form == "bytes") return v * 8 < 65536 ? be(v * 8, 2) : "";
+	(void)enc;
+	return "";
+}
+static std::vector<std::string> forms_of(int enc)
+{
+	std::vector<std::string> f;
+	switch (enc)
+	{
+		case E_NEW: f.push_back("n1"), f.push_back("n2"), f.push_back("n5"), f.push_back("p"); break;
+		case E_OLD: f.push_back("o1"), f.push_back("o2"), f.push_back("o4"); break;
+		case E_SUB: f.push_back("s1"), f.push_back("s2"), f.push_back("s5"); break;
+		case E_U8: f.push_back("u8"); break;
+		case E_U16: f.push_back("u16"); break;
+		case E_U32: f.push_back("u32"); break;
+		case E_MPI: f.push_back("bits"), f.push_back("bytes"); break;
+	}
+	return f;
+}
+// same-width re-encoding of an enclosing length (falls back to the widest form)
+static std::string reenc_parent(const LF &p, uint64_t v)
+{
+	std::vector<std::string> f = forms_of(p.enc);
+	for (size_t i = 0; i < f.size(); i++)
+	{
+		if (f[i] == "p" || f[i] == "bytes") continue;
+		std::string e = enc_len(p.enc, f[i], v, p.tagoctet);
+		if (!e.empty() && e.size() == p.width) return e;
+	}
+	for (size_t i = f.size(); i-- > 0;)
+	{
+		if (f[i] == "p" || f[i] == "bytes") continue;
+		std::string e = enc_len(p.enc, f[i], v, p.tagoctet);
+		if (!e.empty()) return e;
+	}
+	return "";
+}
+
+struct LenScan {
+	const std::string &b;
+	std::vector<LF> F;
+	explicit LenScan(const std::string &blob) : b(blob) {}
+	int add(const std::string &name, size_t pos, size_t width, int enc, uint64_t actual, uint64_t remaining, const std::vector<int> &parents,
+		unsigned char tagoctet = 0, bool partial = false)
+	{
+		LF f;
+		f.name = name, f.pos = pos, f.width = width, f.enc = enc, f.actual = actual, f.remaining = remaining, f.parents = parents;
+		f.tagoctet = tagoctet, f.partial = partial;
+		F.push_back(f);
+		return (int)F.size() - 1;
+	}
+	static std::vector<int> with(int idx, const std::vector<int> &parents) { std::vector<int> v(1, idx); v.insert(v.end(), parents.begin(), parents.end()); return v; }
+	size_t mpis(const std::string &nm, size_t pos, size_t end, const std::vector<int> &par, int maxn)
+	{
+		for (int n = 0; n < maxn && pos + 2 <= end; n++)
+		{
+			size_t bits = rd(b, pos, 2), bytes = (bits + 7) / 8;
+			if (pos + 2 + bytes > end) break;
+			add(nm + ".mpi" + str(n), pos, 2, E_MPI, bytes, end - pos - 2, par);
+			pos += 2 + bytes;
+		}
+		return pos;
+	}
+	void subpackets(const std::string &nm, size_t start, size_t alen, const std::vector<int> &par, bool sig, int depth)
+	{
+		size_t o = start, end = start + alen;
+		for (int n = 0; o < end && n < 64; n++)
+		{
+			unsigned char l0 = b[o];
+			size_t w;
+			uint64_t len;
+			if (l0 < 192) w = 1, len = l0;
+			else if (l0 < 255) { if (o + 2 > end) break; w = 2, len = ((l0 - 192) << 8) + (unsigned char)b[o + 1] + 192; }
+			else { if (o + 5 > end) break; w = 5, len = rd(b, o + 1, 4); }
+			if (len < 1 || o + w + len > end) break;
+			std::string sn = nm + ".sp" + str(n);
+			int me = add(sn + ".len", o, w, E_SUB, len, end - o - w, par);
+			unsigned type = (unsigned char)b[o + w] & 0x7f;
+			size_t data = o + w + 1, dlen = len - 1;
+			std::vector<int> inner = with(me, par);
+			if (sig && type == 20 && dlen >= 8)
+			{
+				uint64_t nl = rd(b, data + 4, 2), vl = rd(b, data + 6, 2);
+				add(sn + ".notation-name-len", data + 4, 2, E_U16, nl, dlen - 8, inner);
+				add(sn + ".notation-value-len", data + 6, 2, E_U16, vl, dlen - 8 > nl ? dlen - 8 - nl : 0, inner);
+			}
+			if (sig && type == 32 && depth < 2)
+				sigbody(sn + ".embedded", data, dlen, inner, depth + 1);
+			if (!sig && type == 1 && dlen >= 16)   // user attribute image: 2-octet little-endian header length
+				add(sn + ".image-header-len", data, 1, E_U8, (unsigned char)b[data], dlen - 1, inner);
+			o += w + len;
+		}
+	}
+	void sigbody(const std::string &nm, size_t body, size_t len, const std::vector<int> &par, int depth)
+	{
+		if (len < 1) return;
+		unsigned ver = (unsigned char)b[body];
+		if (ver == 3 && len >= 19)
+		{
+			add(nm + ".v3-hashed-len", body + 1, 1, E_U8, (unsigned char)b[body + 1], len - 2, par);
+			mpis(nm, body + 19, body + len, par, 2);
+			return;
+		}
+		if ((ver != 4 && ver != 5) || len < 8) return;
+		uint64_t hl = rd(b, body + 4, 2);
+		add(nm + ".hashed-area-len", body + 4, 2, E_U16, hl, len - 6, par);
+		if (6 + hl + 2 > len) return;
+		int hi = (int)F.size() - 1;
+		subpackets(nm + ".hashed", body + 6, hl, with(hi, par), true, depth);
+		uint64_t ul = rd(b, body + 6 + hl, 2);
+		int ui = add(nm + ".unhashed-area-len", body + 6 + hl, 2, E_U16, ul, len - 8 - hl, par);
+		if (8 + hl + ul > len) return;
+		subpackets(nm + ".unhashed", body + 8 + hl, ul, with(ui, par), true, depth);
+		if (10 + hl + ul <= len)
+			mpis(nm, body + 10 + hl + ul, body + len, par, 2);
+	}
+	void keybody(const std::string &nm, unsigned tag, size_t body, size_t len, const std::vector<int> &par)
+	{
+		if (len < 6) return;
+		unsigned ver = (unsigned char)b[body], algo = (unsigned char)b[body + 5];
+		size_t off = body + 6, end = body + len;
+		if (ver == 5)
+		{
+			if (len < 10) return;
+			add(nm + ".v5-keymaterial-len", body + 6, 4, E_U32, rd(b, body + 6, 4), len - 10, par);
+			off = body + 10;
+		}
+		else if (ver != 4) return;
+		size_t p = off;
+		if (algo == 18 || algo == 19 || algo == 22)
+		{
+			if (p >= end) return;
+			unsigned ol = (unsigned char)b[p];
+			add(nm + ".oid-len", p, 1, E_U8, ol, end - p - 1, par);
+			if (p + 1 + ol > end) return;
+			p = mpis(nm + ".pub", p + 1 + ol, end, par, 1);
+			if (algo == 18 && p < end)
+			{
+				add(nm + ".kdf-len", p, 1, E_U8, (unsigned char)b[p], end - p - 1, par);
+				p += 1 + (unsigned char)b[p];
+			}
+		}
+		else
+			p = mpis(nm + ".pub", p, end, par, (algo >= 1 && algo <= 3) ? 2 : (algo == 16 ? 3 : (algo == 17 ? 4 : 0)));
+		if (tag != 5 && tag != 7) return;
+		if (p >= end) return;
+		unsigned conv = (unsigned char)b[p];
+		p++;
+		if (ver == 5 && p < end)
+		{
+			add(nm + ".v5-s2k-params-len", p, 1, E_U8, (unsigned char)b[p], end - p - 1, par);
+			p += 1 + (conv == 0 ? 0 : (unsigned char)b[p]);
+		}
+		else if (conv != 0)
+			return;   // v4 protected key: S2K specifier and IV have fixed sizes, the rest is ciphertext
+		if (ver == 5 && p + 4 <= end)
+		{
+			add(nm + ".v5-secretmaterial-len", p, 4, E_U32, rd(b, p, 4), end - p - 4, par);
+			p += 4;
+		}
+		if (conv == 0)
+			mpis(nm + ".sec", p, end >= 2 ? end - 2 : end, par, 6);
+	}
+	void scan()
+	{
+		size_t i = 0;
+		for (int n = 0; i < b.size() && n < 64; n++)
+		{
+			unsigned char t = b[i];
+			if (!(t & 0x80)) break;
+			std::string nm = "k" + str(n);
+			std::vector<int> none;
+			unsigned tag;
+			size_t body, len;
+			int me;
+			if (t & 0x40)
+			{
+				tag = t & 0x3f;
+				if (i + 1 >= b.size()) break;
+				unsigned char l = b[i + 1];
+				if (l >= 224 && l < 255)
+				{
+					// partial body lengths: every chunk header is a length field of its own; the body is not contiguous
+					size_t o = i + 1;
+					for (int c = 0; o < b.size() && c < 64; c++)
+					{
+						unsigned char q = b[o];
+						if (q >= 224 && q < 255)
+						{
+							uint64_t cl = (uint64_t)1 << (q & 0x1f);
+							add(nm + ".chunk" + str(c) + ".partial-len", o, 1, E_NEW, cl, b.size() - o - 1, none, 0, true);
+							o += 1 + cl;
+							continue;
+						}
+						size_t w;
+						uint64_t fl;
+						if (q < 192) w = 1, fl = q;
+						else if (q < 224) { if (o + 2 > b.size()) break; w = 2, fl = ((q - 192) << 8) + (unsigned char)b[o + 1] + 192; }
+						else { if (o + 5 > b.size()) break; w = 5, fl = rd(b, o + 1, 4); }
+						add(nm + ".chunk" + str(c) + ".final-len", o, w, E_NEW, fl, b.size() - o - w, none);
+						o += w + fl;
+						break;
+					}
+					i = o;
+					continue;
+				}
+				size_t w;
+				if (l < 192) w = 1, len = l;
+				else if (l < 224) { if (i + 3 > b.size()) break; w = 2, len = ((l - 192) << 8) + (unsigned char)b[i + 2] + 192; }
+				else { if (i + 6 > b.size()) break; w = 5, len = rd(b, i + 2, 4); }
+				body = i + 1 + w;
+				me = add(nm + ".packet-len", i + 1, w, E_NEW, len, b.size() - body, none);
+			}
+			else
+			{
+				tag = (t >> 2) & 15;
+				unsigned lt = t & 3;
+				size_t w = lt == 0 ? 1 : (lt == 1 ? 2 : (lt == 2 ? 4 : 0));
+				if (!w || i + 1 + w > b.size()) break;
+				len = rd(b, i + 1, w);
+				body = i + 1 + w;
+				me = add(nm + ".packet-len", i, 1 + w, E_OLD, len, b.size() - body, none, t);
+			}
+			if (body + len > b.size()) break;
+			std::vector<int> par(1, me);
+			nm += ".tag" + str(tag);
+			if (tag == 2) sigbody(nm, body, len, par, 0);
+			else if (tag == 5 || tag == 6 || tag == 7 || tag == 14) keybody(nm, tag, body, len, par);
+			else if (tag == 1 && len > 10) mpis(nm, body + 10, body + len, par, 2);
+			else if (tag == 11 && len >= 2) add(nm + ".filename-len", body + 1, 1, E_U8, (unsigned char)b[body + 1], len - 2, par);
+			else if (tag == 17) subpackets(nm + ".uat", body, len, par, false, 0);
+			else if (tag == 3 && len >= 4 && (unsigned char)b[body] == 5)
+				add(nm + ".v5-skesk-count", body + 1, 1, E_U8, (unsigned char)b[body + 1], len - 2, par);
+			i = body + len;
+		}
+	}
+};
+
+static void length_mutations(const std::string &seed, bool full, const std::function<void(const Mutation &)> &f)
+{
+	LenScan S(seed);
+	S.scan();
+	std::unordered_set<uint64_t> seen;
+	seen.insert(SeedHash::hash_ready(seed));
+	Mutation m;
+	m.have_ready = true;
+	for (size_t fi = 0; fi < S.F.size(); fi++)
+	{
+		const LF &L = S.F[fi];
+		std::vector<std::pair<std::string, uint64_t> > vals;
+		auto val = [&](const char *n, uint64_t v, bool core) { if (full || core) vals.push_back(std::make_pair(std::string(n), v)); };
+		val("0", 0, true), val("1", 1, false);
+		if (L.actual > 0) val("a-1", L.actual - 1, true);
+		val("a+1", L.actual + 1, true);
+		if (L.remaining > 0) val("r-1", L.remaining - 1, false);
+		val("r", L.remaining, false), val("r+1", L.remaining + 1, true);
+		val("7f", 0x7f, false), val("80", 0x80, false), val("bf", 0xbf, false), val("c0", 0xc0, false), val("ff", 0xff, true);
+		val("191", 191, false), val("192", 192, false), val("8383", 8383, false), val("8384", 8384, false), val("16319", 16319, false), val("16320", 16320, false);
+		val("ffff", 0xffff, true), val("7fffffff", 0x7fffffffULL, true), val("80000000", 0x80000000ULL, true);
+		for (unsigned k = 0; k < 16; k++)
+		{
+			char nm[16];
+			snprintf(nm, sizeof nm, "%08x", 0xfffffff0u + k);
+			val(nm, 0xfffffff0ULL + k, k == 0 || k == 11 || k == 15);
+		}
+		std::vector<std::string> forms = forms_of(L.enc);
+		for (size_t vi = 0; vi < vals.size(); vi++)
+		for (size_t fo = 0; fo < forms.size(); fo++)
+		{
+			uint64_t v = vals[vi].second;
+			std::string e = enc_len(L.enc, forms[fo], v, L.tagoctet);
+			if (e.empty()) continue;
+			long wdelta = (long)e.size() - (long)L.width;
+			// modes: 0 = only this field; 1 = enclosing lengths follow the changed width; 2 = enclosing inner lengths also follow the value (a-1 / a+1)
+			for (int mode = 0; mode < 3; mode++)
+			{
+				if (mode == 1 && (wdelta == 0 || L.parents.empty())) continue;
+				if (mode == 2 && (L.parents.empty() || !(vals[vi].first == "a-1" || vals[vi].first == "a+1"))) continue;
+				std::vector<std::pair<size_t, std::pair<size_t, std::string> > > edits;   // pos -> (width, replacement)
+				edits.push_back(std::make_pair(L.pos, std::make_pair(L.width, e)));
+				bool okm = true;
+				if (mode >= 1)
+				{
+					long acc = wdelta, vd = mode == 2 ? (long)v - (long)L.actual : 0;
+					for (size_t pi = 0; pi < L.parents.size(); pi++)
+					{
+						const LF &Pf = S.F[L.parents[pi]];
+						bool outer = Pf.enc == E_NEW || Pf.enc == E_OLD;
+						long nv = (long)Pf.actual + acc + (outer ? 0 : vd);
+						if (nv < 0) { okm = false; break; }
+						std::string pe = reenc_parent(Pf, (uint64_t)nv);
+						if (pe.empty()) { okm = false; break; }
+						edits.push_back(std::make_pair(Pf.pos, std::make_pair(Pf.width, pe)));
+						acc += (long)pe.size() - (long)Pf.width;
+					}
+				}
+				if (!okm) continue;
+				std::sort(edits.begin(), edits.end());
+				std::string out = seed;
+				for (size_t k = edits.size(); k-- > 0;)
+					out.replace(edits[k].first, edits[k].second.first, edits[k].second.second);
+				if (!seen.insert(SeedHash::hash_ready(out)).second) continue;
+				m.id = "L" + str(fi) + ":" + forms[fo] + "=" + vals[vi].first + (mode == 1 ? ":fixw" : (mode == 2 ? ":fixv" : ""));
+				m.cls = "length-field " + L.name + " " + forms[fo] + "=" + vals[vi].first + (mode ? " (enclosing lengths adjusted)" : "");
+				m.ready = out;
+				f(m);
+			}
+		}
+	}
+}
+
 // every public (sub)key packet of a blob rewritten as a version 5 packet (same key material, 4-octet key material count)
 static std::string to_v5(const std::string &blob, int force_algo = -1)
 {
@@ -409,6 +753,7 @@ struct PTarget {
 	PTarget() : binary(false), own_custom(false) {}
 };
 static std::vector<PTarget> V;
+static std::string lenpart = "all", lenlevel;   // --family length: --part decode|parse|all, --lenlevel core|full
 
 static void add_bin(const std::string &name, const std::string &seedname, const std::string &seed, const std::function<int(const std::string &)> &run,
 	bool expect = true)
@@ -630,7 +975,7 @@ static void build_targets(const std::string &family)
 			PGP::ArmorDecode(EXT_EMMA, o);
 			add_bin("pgp.PrivateKeyBlockParse", "emma-v5", strof(o), [run_prv](const std::string &in) { return run_prv(in, ""); });
 		}
-		add_bin("pgp.PublicKeyringParse", "two-keys", ringb, [](const std::string &in) {
+		auto run_ring = [](const std::string &in) {
 			TMCG_OpenPGP_Keyring *r = NULL;
 			bool ok = PGP::PublicKeyringParse(oct(in), 0, r);
 			if (!ok) return 0;
@@ -640,7 +985,19 @@ static void build_targets(const std::string &family)
 			(void)r->Find("0123456789ABCDEF0123456789ABCDEF01234567"), (void)r->FindByKeyid("0123456789ABCDEF");
 			delete r;
 			return n > 0 ? 1 : 0;
-		});
+		};
+		add_bin("pgp.PublicKeyringParse", "two-keys", ringb, run_ring);
+		{
+			// a third key block whose PRIMARY key packet body equals the SUBKEY body of the first key (same fingerprint / key ID)
+			std::vector<Pkt> P = packets(pubblock);
+			if (P.size() >= 5)
+			{
+				std::string subbody = pubblock.substr(P[3].body, P[3].len), uidp = pubblock.substr(P[1].hdr, P[1].body + P[1].len - P[1].hdr);
+				std::string prim = std::string(1, (char)(0xC0 | 6)) + "\xff" + be(subbody.size(), 4) + subbody;
+				add_bin("pgp.PublicKeyringParse", "primary-equals-earlier-subkey", ringb + prim + uidp + pubblock.substr(P[2].hdr, P[2].body + P[2].len - P[2].hdr), run_ring, false);
+				add_bin("pgp.PublicKeyringParse", "subkey-then-same-primary-first", pubblock + prim + uidp, run_ring, false);
+			}
+		}
 		auto run_sig = [pubblock, data](const std::string &in) {
 			TMCG_OpenPGP_Signature *s = NULL;
 			bool ok = PGP::SignatureParse(oct(in), 0, s);
@@ -763,6 +1120,165 @@ static void build_targets(const std::string &family)
 			return r;
 		});
 	}
+	else if (family == "length")
+	{
+		// ---- artefacts (binary), incl. hand-assembled ones that carry the length fields the encoders' defaults lack
+		std::vector<std::pair<std::string, std::string> > B;
+		auto dearmor = [](const char *a) { tmcg_openpgp_octets_t o; PGP::ArmorDecode(a, o); return strof(o); };
+		std::string mallory = dearmor(EXT_MALLORY), davey = dearmor(EXT_DAVEY), alice = dearmor(EXT_ALICE), emma = dearmor(EXT_EMMA),
+			alicesig = dearmor(EXT_ALICE_SIG);
+		auto newhdr = [](unsigned tag, size_t len) {
+			std::string h(1, (char)(0xC0 | tag));
+			if (len < 192) h += be(len, 1);
+			else if (len <= 8383) h += std::string(1, (char)(((len - 192) >> 8) + 192)) + std::string(1, (char)((len - 192) & 0xff));
+			else h += "\xff" + be(len, 4);
+			return h;
+		};
+		// detached signature with notation data, policy URI and an embedded signature in the unhashed area (signature stays valid)
+		std::string sigrich;
+		{
+			std::vector<Pkt> P = packets(sig);
+			if (P.size() == 1 && P[0].len > 10)
+			{
+				std::string body = sig.substr(P[0].body, P[0].len);
+				size_t hl = rd(body, 4, 2), ul = rd(body, 6 + hl, 2);
+				tmcg_openpgp_octets_t nd, sp1, sp2, sp3;
+				nd.push_back(0x80), nd.push_back(0), nd.push_back(0), nd.push_back(0), nd.push_back(0), nd.push_back(3), nd.push_back(0), nd.push_back(3);
+				for (const char *c = "a@bxyz"; *c; c++) nd.push_back(*c);
+				PGP::SubpacketEncode(20, false, nd, sp1);
+				PGP::SubpacketEncode(26, false, oct("http://example.org/policy"), sp2);
+				PGP::SubpacketEncode(32, false, oct(body), sp3);
+				std::string extra = strof(sp1) + strof(sp2) + strof(sp3);
+				std::string nb = body.substr(0, 6 + hl) + be(ul + extra.size(), 2) + body.substr(8 + hl, ul) + extra + body.substr(8 + hl + ul);
+				sigrich = newhdr(2, nb.size()) + nb;
+			}
+		}
+		// literal data packet as a partial-length chain (512 + rest) and a user attribute packet
+		std::string litpartial, uat, msgbig;
+		{
+			tmcg_openpgp_octets_t pt, lp;
+			for (size_t i = 0; i < 700; i++) pt.push_back((tmcg_openpgp_byte_t)data[i % data.size()]);
+			PGP::PacketLitEncode(pt, lp);
+			std::string l = strof(lp);
+			std::vector<Pkt> P = packets(l);
+			if (P.size() == 1 && P[0].len > 512)
+			{
+				std::string body = l.substr(P[0].body, P[0].len);
+				litpartial = std::string(1, (char)(0xC0 | 11)) + std::string(1, (char)(224 + 9)) + body.substr(0, 512) + newhdr(0, body.size() - 512).substr(1) + body.substr(512);
+			}
+			std::string img = std::string("\x10\x00\x01\x01", 4) + std::string(12, '\0') + "\xff\xd8\xff\xe0JFIF-not-really";
+			tmcg_openpgp_octets_t sp;
+			PGP::SubpacketEncode(1, false, oct(img), sp);
+			uat = newhdr(17, sp.size()) + strof(sp);
+		}
+		B.push_back(std::make_pair("sig", sig)), B.push_back(std::make_pair("sig-rich", sigrich)), B.push_back(std::make_pair("pubblock", pubblock));
+		B.push_back(std::make_pair("msg", msg)), B.push_back(std::make_pair("lit", lit)), B.push_back(std::make_pair("lit-partial", litpartial));
+		B.push_back(std::make_pair("emma-v5-prv", emma)), B.push_back(std::make_pair("mallory-ed25519", mallory));
+		B.push_back(std::make_pair("mallory-ed25519-v5", to_v5(mallory))), B.push_back(std::make_pair("uat", uat));
+		B.push_back(std::make_pair("prvblock", prvblock)), B.push_back(std::make_pair("davey-attested", davey)), B.push_back(std::make_pair("alice-eddsa", alice));
+		B.push_back(std::make_pair("alice-sig", alicesig)), B.push_back(std::make_pair("pubblock-v5", to_v5(pubblock))), B.push_back(std::make_pair("ring", ringb));
+		std::string part = lenpart;
+		bool full = lenlevel == "full" || (lenlevel.empty() && thorough);
+		auto add_len = [full](const std::string &name, const std::string &seedname, const std::string &seed,
+			const std::function<int(const std::string &)> &run, bool expect) {
+			if (seed.empty()) return;
+			add_bin(name, seedname, seed, run, expect);
+			PTarget &T = V.back();
+			std::string sd = seed;
+			T.t.custom = [sd, full](const std::function<void(const Mutation &)> &f) { length_mutations(sd, full, f); };
+			T.own_custom = true;
+		};
+		if (part == "all" || part == "decode")
+			for (size_t i = 0; i < B.size(); i++)
+			{
+				add_len("len.packet.decode", B[i].first, B[i].second, [](const std::string &in) { return run_packet_loop(in, 0); }, B[i].first != "lit-partial" || true);
+				if (thorough && (B[i].first == "prvblock" || B[i].first == "emma-v5-prv"))
+					add_len("len.packet.decode-dkg2", B[i].first, B[i].second, [](const std::string &in) { return run_packet_loop(in, 2); }, true);
+			}
+		if (part == "all" || part == "parse")
+		{
+			auto run_pub = [](const std::string &in) {
+				TMCG_OpenPGP_Pubkey *p = NULL;
+				bool ok = PGP::PublicKeyBlockParse(oct(in), 0, p);
+				int r = 0;
+				if (ok) { r = use_pubkey(p); delete p; }
+				return r;
+			};
+			auto run_prv = [](const std::string &in, const char *pw) {
+				TMCG_OpenPGP_Prvkey *p = NULL;
+				if (!PGP::PrivateKeyBlockParse(oct(in), 0, pw, p)) return 0;
+				TMCG_OpenPGP_Keyring ring;
+				p->RelinkPublicSubkeys();
+				bool c = p->pub->CheckSelfSignatures(&ring, 0);
+				(void)p->pub->CheckSubkeys(&ring, 0);
+				p->RelinkPrivateSubkeys();
+				tmcg_openpgp_octets_t ex;
+				p->Export(ex);
+				delete p;
+				return c ? 1 : 0;
+			};
+			auto run_sig = [pubblock, data](const std::string &in) {
+				TMCG_OpenPGP_Signature *s = NULL;
+				if (!PGP::SignatureParse(oct(in), 0, s)) return 0;
+				TMCG_OpenPGP_Signature s2 = *s;
+				bool good = s->Good();
+				(void)s->CheckValidity(1699990000, 0);
+				s2.PrintInfo();
+				TMCG_OpenPGP_Pubkey *p = NULL;
+				int r = 0;
+				if (PGP::PublicKeyBlockParse(oct(pubblock), 0, p)) { r = (good && s->VerifyData(p->key, oct(data), 0)) ? 1 : 0; delete p; }
+				delete s;
+				return r;
+			};
+			auto run_msg = [prvblock](const std::string &in) {
+				TMCG_OpenPGP_Message *m = NULL;
+				if (!PGP::MessageParse(oct(in), 0, m)) return 0;
+				int r = m->literal_data.size() > 0 ? 1 : 0;
+				TMCG_OpenPGP_Prvkey *prv = NULL;
+				if (m->PKESKs.size() && PGP::PrivateKeyBlockParse(oct(prvblock), 0, "FCK!NSA", prv))
+				{
+					tmcg_openpgp_secure_octets_t seskey;
+					for (size_t i = 0; i < m->PKESKs.size() && seskey.empty(); i++)
+						for (size_t j = 0; j < prv->private_subkeys.size(); j++)
+							if (prv->private_subkeys[j]->Decrypt(m->PKESKs[i], 0, seskey)) break;
+					tmcg_openpgp_octets_t dec;
+					if (!seskey.empty() && m->Decrypt(seskey, 0, dec))
+					{
+						TMCG_OpenPGP_Message *m2 = NULL;
+						if (PGP::MessageParse(dec, 0, m2)) { r = m2->literal_data.size() > 0 ? 1 : 0; delete m2; }
+					}
+					delete prv;
+				}
+				delete m;
+				return r;
+			};
+			add_len("len.SignatureParse", "sig", sig, run_sig, true);
+			add_len("len.SignatureParse", "sig-rich", sigrich, run_sig, false);
+			add_len("len.PublicKeyBlockParse", "pubblock", pubblock, run_pub, true);
+			add_len("len.PublicKeyBlockParse", "mallory-ed25519", mallory, run_pub, true);
+			add_len("len.MessageParse", "lit", lit, run_msg, true);
+			add_len("len.MessageParse", "lit-partial", litpartial, run_msg, false);
+			add_len("len.MessageParse", "msg", msg, run_msg, true);
+			add_len("len.PrivateKeyBlockParse", "emma-v5-prv", emma, [run_prv](const std::string &in) { return run_prv(in, ""); }, true);
+			if (thorough)
+			{
+				add_len("len.SignatureParse", "alice-sig", alicesig, run_sig, false);
+				add_len("len.PublicKeyBlockParse", "davey-attested", davey, run_pub, true);
+				add_len("len.PublicKeyBlockParse", "alice-eddsa", alice, run_pub, true);
+				add_len("len.PublicKeyBlockParse", "mallory-ed25519-v5", to_v5(mallory), run_pub, false);
+				add_len("len.PrivateKeyBlockParse", "prvblock", prvblock, [run_prv](const std::string &in) { return run_prv(in, "FCK!NSA"); }, true);
+				add_len("len.PublicKeyringParse", "ring", ringb, [](const std::string &in) {
+					TMCG_OpenPGP_Keyring *r = NULL;
+					if (!PGP::PublicKeyringParse(oct(in), 0, r)) return 0;
+					size_t n = r->Size();
+					(void)r->Check(0);
+					r->Reduce();
+					delete r;
+					return n > 0 ? 1 : 0;
+				}, true);
+			}
+		}
+	}
 #else
 	(void)family;
 #endif
@@ -786,6 +1302,7 @@ int main(int argc, char **argv)
 	Runner run(rep);
 	run.F.prologue = [&cs]() { cs.reset(mcenv::env_seed(), 99); mcenv::cur = &cs; mcenv::set_clock(1700000000); };
 	std::string family = A.get("family", "packet");
+	lenpart = A.get("part", "all"), lenlevel = A.get("lenlevel", "");
 	{
 		MuteCerr mute;
 		build_targets(family);
